@@ -815,7 +815,7 @@ pub fn main(a: &Args) {
         write_file(&a.out.join("cases.jsonl"), &lines);
         return;
     }
-    let n = if a.thorough() { 40_000 } else { 1_200 };
+    let n = if a.thorough() { 40_000 } else { 2_400 };
     let mut master = Rng::new(a.seed ^ 0xC18);
     for i in 0..n {
         let kind = master.below(100);
